@@ -2,6 +2,8 @@ package main
 
 import (
 	"fmt"
+	"go/token"
+	"regexp"
 	"strings"
 
 	"golang.org/x/tools/go/ssa"
@@ -72,11 +74,50 @@ func runC03(c *Ctx) {
 	c.Rule("C03-R2", "reorg bookkeeping: new chain inserted oldest-first with lookups; dropped-minus-added lookups deleted", func() {
 		rg := c.Fn("core:(*BlockChain).reorg")
 		f := c.Facts(rg)
-		init, step, ok := phiInitStep(c, rg, "i")
-		// two loops use `i`: the insertion loop (downwards) and the stale-number loop (upwards)
-		_ = init
-		_ = step
-		_ = ok
+		vc := newValueClasses(rg)
+		// classify the accumulators by what flows into them (no variable names): blocks rooted at the old-head
+		// parameter (#1) or the new-head parameter (#2), and transactions of such blocks
+		const oldP, newP = 1, 2
+		var newBlocksAcc ssa.Value     // slice accumulating blocks of the new branch
+		var dropped, added []ssa.Value // append results accumulating transactions of old / new blocks
+		nDropSites := 0
+		for _, s := range callSites(rg, `^append$`) {
+			call, isCall := s.(*ssa.Call)
+			if !isCall || len(call.Call.Args) < 2 {
+				continue
+			}
+			arg := stripConvAll(call.Call.Args[1])
+			// append(blocks, X) is lowered to a one-element slice literal: look through it
+			if sl, isSl := arg.(*ssa.Slice); isSl {
+				if al, isAl := sl.X.(*ssa.Alloc); isAl {
+					for _, st := range storesInto(rg, al) {
+						if paramIndex(rootParam(st)) == newP {
+							newBlocksAcc = call
+						}
+					}
+				}
+			}
+			if recv := methodRecv(arg, "Transactions"); recv != nil {
+				if paramIndex(rootParam(recv)) == oldP {
+					dropped = append(dropped, call)
+					nDropSites++
+				} else if base, _ := indexBase(recv); base != nil && newBlocksAcc != nil && vc.same(base, newBlocksAcc) {
+					added = append(added, call)
+				} else if paramIndex(rootParam(recv)) == newP {
+					added = append(added, call)
+				}
+			}
+		}
+		inClass := func(v ssa.Value, set []ssa.Value) bool {
+			for _, x := range set {
+				if vc.same(v, x) {
+					return true
+				}
+			}
+			return false
+		}
+		c.Ob("C03-R2", "reorg: dropped transactions are collected in both walk loops and added ones in the insert loop", c.FnPos(rg),
+			nDropSites == 2 && len(added) == 1 && newBlocksAcc != nil, fmt.Sprintf("%d sites appending old-branch transactions, %d appending new-branch transactions", nDropSites, len(added)))
 		var ins, lk ssa.CallInstruction
 		for _, s := range callSites(rg, `^BlockChain\.insert$`) {
 			ins = s
@@ -84,49 +125,65 @@ func runC03(c *Ctx) {
 		for _, s := range callSites(rg, `^core\.WriteTxLookupEntries$`) {
 			lk = s
 		}
-		good := ins != nil && lk != nil
+		good := ins != nil && lk != nil && newBlocksAcc != nil
 		d := ""
-		if good {
-			a, b := f.tr.term(nil, ins.Common().Args[1], 0), f.tr.term(nil, lk.Common().Args[1], 0)
-			good = a == b && mustRe(`^phi:newChain(~\d+)?\[phi:i(~\d+)?\]$`).MatchString(a) && ins.Block() == lk.Block() && instrDominates(ins, lk)
-			d = "insert(" + a + "); WriteTxLookupEntries(db, " + b + ")"
-		}
-		c.Ob("C03-R2", "reorg: each new-chain block is inserted and its lookup entries written in the same iteration", c.FnPos(rg), good, d)
-		// iteration order: from len(newChain)-1 down to 0
 		okOrder := false
-		for _, b := range rg.Blocks {
-			for _, x := range b.Instrs {
-				if p, isPhi := x.(*ssa.Phi); isPhi && p.Comment == "i" && len(p.Edges) == 2 {
-					a, bb := f.tr.term(nil, p.Edges[0], 0), f.tr.term(nil, p.Edges[1], 0)
-					if mustRe(`^\(len\(phi:newChain(~\d+)?\) - 1\)$`).MatchString(a) && mustRe(`^\(phi:i(~\d+)? - 1\)$`).MatchString(bb) {
-						okOrder = true
+		if good {
+			ia, ib := ins.Common().Args[1], lk.Common().Args[1]
+			ba, xa := indexBase(ia)
+			bb, xb := indexBase(ib)
+			good = ba != nil && bb != nil && vc.same(ba, newBlocksAcc) && vc.same(bb, newBlocksAcc) && xa == xb && ins.Block() == lk.Block() && instrDominates(ins, lk)
+			d = "insert(" + f.tr.term(nil, ia, 0) + "); WriteTxLookupEntries(db, " + f.tr.term(nil, ib, 0) + ")"
+			// iteration order: the index starts at len(newChain)-1 and steps down by one
+			if p, isPhi := xa.(*ssa.Phi); isPhi && len(p.Edges) == 2 {
+				self := f.tr.term(nil, p, 0)
+				for k := 0; k < 2; k++ {
+					init, step := p.Edges[k], f.tr.term(nil, p.Edges[1-k], 0)
+					if bo, isB := init.(*ssa.BinOp); isB && bo.Op == token.SUB && step == "("+self+" - 1)" {
+						if ln, isLen := bo.X.(*ssa.Call); isLen && calleeName(&ln.Call) == "len" && vc.same(ln.Call.Args[0], newBlocksAcc) {
+							if k1, isC := constInt(bo.Y); isC && k1 == 1 {
+								okOrder = true
+							}
+						}
 					}
 				}
 			}
 		}
-		c.Ob("C03-R2", "reorg: the new chain is applied oldest block first (i from len-1 down)", c.FnPos(rg), okOrder, "")
+		c.Ob("C03-R2", "reorg: each new-chain block is inserted and its lookup entries written in the same iteration", c.FnPos(rg), good, d)
+		c.Ob("C03-R2", "reorg: the new chain is applied oldest block first (index from len-1 down)", c.FnPos(rg), okOrder, "")
 		for _, s := range callSites(rg, `^core\.DeleteTxLookupEntry$`) {
 			t := f.tr.term(nil, s.Common().Args[1], 0)
-			c.Ob("C03-R2", "reorg: deleted lookup entries are those of TxDifference(dropped, added)", c.Position(s.Pos()),
-				mustRe(`^types\.TxDifference\(phi:deletedTxs(~\d+)?, phi:addedTxs(~\d+)?\)\[.*\]\.Hash\(\)$`).MatchString(t), "DeleteTxLookupEntry(db, "+t+")")
+			ok := false
+			// Hash() of an element of TxDifference(dropped accumulator, added accumulator)
+			if recv := methodRecv(s.Common().Args[1], "Hash"); recv != nil {
+				el := recv
+				if base, _ := indexBase(el); base != nil {
+					el = base
+				}
+				for _, l := range phiLeaves(el) {
+					if base, _ := indexBase(l); base != nil {
+						l = base
+					}
+					if call, isCall := l.(*ssa.Call); isCall && calleeName(&call.Call) == "types.TxDifference" {
+						ok = inClass(call.Call.Args[0], dropped) && inClass(call.Call.Args[1], added)
+					}
+				}
+			}
+			if !ok {
+				// range over the difference: the element comes from a Range/Next or an index into the call result
+				ok = mustRe(`^types\.TxDifference\(`+PH+`, `+PH+`\)\[.*\]\.Hash\(\)$`).MatchString(t) && c03DiffArgs(rg, vc, dropped, added)
+			}
+			c.Ob("C03-R2", "reorg: deleted lookup entries are those of TxDifference(dropped, added)", c.Position(s.Pos()), ok, "DeleteTxLookupEntry(db, "+t+")")
 		}
+		// the deletion is unconditional for every element of the difference
+		c.MustLoopBack("C03-R2", rg, `^core\.DeleteTxLookupEntry$`, []LitReq{
+			{Name: "every transaction of the difference has its lookup entry deleted (no element is skipped)", Re: `^call:core\.DeleteTxLookupEntry$`},
+		})
 		if len(callSites(rg, `^core\.DeleteTxLookupEntry$`)) != 1 {
 			c.Ob("C03-R2", "reorg has one DeleteTxLookupEntry site", c.FnPos(rg), false, "")
 		}
-		// deletedTxs / addedTxs accumulate the transactions of *every* dropped / added block
-		napp := 0
-		for _, s := range callSites(rg, `^append$`) {
-			t := f.tr.term(nil, s.Common().Args[0], 0)
-			a := f.tr.term(nil, s.Common().Args[1], 0)
-			if strings.HasPrefix(t, "phi:deletedTxs") && strings.Contains(a, "oldBlock") && strings.HasSuffix(a, ".Transactions()") ||
-				strings.HasPrefix(t, "phi:deletedTxs") && strings.HasSuffix(a, ".Transactions()") ||
-				strings.HasPrefix(t, "phi:addedTxs") && strings.HasSuffix(a, ".Transactions()") {
-				napp++
-			}
-		}
-		c.Ob("C03-R2", "reorg: dropped transactions are collected in both walk loops and added ones in the insert loop", c.FnPos(rg), napp == 3, fmt.Sprintf("%d accumulation sites", napp))
 	})
-	c.Min("C03-R2", 4)
+	c.Min("C03-R2", 5)
 
 	c.Rule("C03-R3", "sibling agreement: whoever can lower the head clears the number entries above it", func() {
 		type sib struct{ spec, db, start string }
@@ -190,9 +247,11 @@ func runC03(c *Ctx) {
 		if len(dels) == 1 {
 			if p, ok := dels[0].Common().Args[1].(*ssa.Phi); ok && len(p.Edges) == 2 {
 				a, b := f.tr.term(nil, p.Edges[0], 0), f.tr.term(nil, p.Edges[1], 0)
-				okS = strings.HasPrefix(a, "phi:height") && b == "("+f.tr.term(nil, p, 0)+" - 1)"
+				// the loop variable starts at the old height (a value computed before the unwind loop) and steps down by one
+				_, startsAtPhi := p.Edges[0].(*ssa.Phi)
+				okS = (startsAtPhi || strings.Contains(a, ".Number.Uint64()")) && b == "("+f.tr.term(nil, p, 0)+" - 1)"
 				d = "i := " + a + "; step " + b
-				_, lit := allHave(f.At(dels[0]), mustRe(`^phi:i(~\d+)? > uint64#0$`))
+				_, lit := allHave(f.At(dels[0]), mustRe(`^`+regexp.QuoteMeta(f.tr.term(nil, p, 0))+` > uint64#0$`))
 				d += "; guard " + lit
 			}
 		}
@@ -203,10 +262,10 @@ func runC03(c *Ctx) {
 	c.Rule("C03-R4", "rewind deletes header, TD and number of every unwound height and re-derives the head pointers", func() {
 		sh := c.Fn("core:(*HeaderChain).SetHead")
 		c.MustLoopBack("C03-R4", sh, `^core\.DeleteHeader$`, []LitReq{
-			{Name: "only headers above the target are unwound", Re: `^phi:hdr(~\d+)?\.Number\.Uint64\(\) > uint64#0$`},
-			{Name: "header deleted", Re: `^called:core\.DeleteHeader\(HeaderChain#0\.chainDb, phi:hdr(~\d+)?\.Hash\(\), phi:hdr(~\d+)?\.Number\.Uint64\(\)\)$`},
-			{Name: "total difficulty deleted", Re: `^called:core\.DeleteTd\(HeaderChain#0\.chainDb, phi:hdr(~\d+)?\.Hash\(\), phi:hdr(~\d+)?\.Number\.Uint64\(\)\)$`},
-			{Name: "head steps to the parent", Re: `^called:HeaderChain#0\.currentHeader\.Store\(HeaderChain#0\.GetHeader\(phi:hdr(~\d+)?\.ParentHash, \(phi:hdr(~\d+)?\.Number\.Uint64\(\) - 1\)\)\)$`},
+			{Name: "only headers above the target are unwound", OnePhi: true, Re: `^` + PH + `\.Number\.Uint64\(\) > uint64#0$`},
+			{Name: "header deleted", OnePhi: true, Re: `^called:core\.DeleteHeader\(HeaderChain#0\.chainDb, ` + PH + `\.Hash\(\), ` + PH + `\.Number\.Uint64\(\)\)$`},
+			{Name: "total difficulty deleted", OnePhi: true, Re: `^called:core\.DeleteTd\(HeaderChain#0\.chainDb, ` + PH + `\.Hash\(\), ` + PH + `\.Number\.Uint64\(\)\)$`},
+			{Name: "head steps to the parent", OnePhi: true, Re: `^called:HeaderChain#0\.currentHeader\.Store\(HeaderChain#0\.GetHeader\(` + PH + `\.ParentHash, \(` + PH + `\.Number\.Uint64\(\) - 1\)\)\)$`},
 		})
 		f := c.Facts(sh)
 		var rs []*pstate
@@ -254,4 +313,46 @@ func runC03(c *Ctx) {
 		})
 	})
 	c.Min("C03-R5", 5)
+}
+
+// storesInto: values stored into (elements of) the allocation.
+func storesInto(fn *ssa.Function, al *ssa.Alloc) []ssa.Value {
+	var out []ssa.Value
+	for _, b := range fn.Blocks {
+		for _, ins := range b.Instrs {
+			if st, ok := ins.(*ssa.Store); ok {
+				switch a := st.Addr.(type) {
+				case *ssa.IndexAddr:
+					if a.X == al {
+						out = append(out, st.Val)
+					}
+				case *ssa.Alloc:
+					if a == al {
+						out = append(out, st.Val)
+					}
+				}
+			}
+		}
+	}
+	return out
+}
+
+// c03DiffArgs: every TxDifference call in fn takes (dropped accumulator, added accumulator).
+func c03DiffArgs(fn *ssa.Function, vc *valueClasses, dropped, added []ssa.Value) bool {
+	in := func(v ssa.Value, set []ssa.Value) bool {
+		for _, x := range set {
+			if vc.same(v, x) {
+				return true
+			}
+		}
+		return false
+	}
+	n := 0
+	for _, s := range callSites(fn, `^types\.TxDifference$`) {
+		n++
+		if !in(s.Common().Args[0], dropped) || !in(s.Common().Args[1], added) {
+			return false
+		}
+	}
+	return n > 0
 }
